@@ -3,10 +3,10 @@ package checks
 // C15 adversary: message generators driven by the tape.
 
 import (
-	"math/big"
 	"bytes"
 	"encoding/binary"
 	"fmt"
+	"math/big"
 	"os"
 	"sort"
 	"time"
